@@ -210,6 +210,16 @@ Tree* splay_erase(const Key& k, Tree*& t, const Compare& cmp)
         else
         {
             Tree* x = splay(k, t->left, cmp);
+            // with duplicates the left subtree can contain further keys equal
+            // to k, which end up right of x: rotate them up until x is the
+            // maximum of the left subtree and has no right child.
+            while (x->right != nullptr)
+            {
+                Tree* y = x->right;
+                x->right = y->left;
+                y->left = x;
+                x = y;
+            }
             x->right = t->right;
             t = x;
         }
